@@ -1,5 +1,6 @@
 import Gimli.Lemmas.Value
 import Gimli.Lemmas.OpTotal
+import Gimli.Lemmas.OpSuffix
 import Gimli.Lemmas.Capacity
 import Gimli.Lemmas.SimRun
 import Gimli.Lemmas.IterWrap
@@ -96,6 +97,14 @@ example : Spec.OpTable.signature 0xa4 = some [.uleb, .block1] ∧ Spec.OpTable.s
 panic, never fuel exhaustion. -/
 theorem decode_total (e : Endian) (enc : Encoding) (bs : Bytes) : (Op.parse e enc bs).Normal :=
   parse_normal e enc bs
+
+/-- **`OperationIter`**: every operation it yields consumes at least one byte (so it ends), and
+after an error it is empty: the next call is `Ok(None)`. -/
+theorem operation_iter_ends (e : Endian) (enc : Encoding) (input : Bytes) :
+    (∀ op, (iterNext e enc input).1 = .ok (some op) → (iterNext e enc input).2.length < input.length) ∧
+    (∀ x, (iterNext e enc input).1 = .err x →
+      (iterNext e enc (iterNext e enc input).2).1 = .ok none) :=
+  ⟨fun op h => iterNext_progress e enc input op h, fun x h => (iterNext_after_error e enc input x h).2⟩
 
 /-! ## (3) branches -/
 
